@@ -93,10 +93,17 @@ Definition py_max (l : list Q) : option Q := match l with [] => None | x :: r =>
 (* a Python value handed to / returned by a table function *)
 Inductive val :=
 | VNum (cplx : bool) (z : GQ)                       (* float (cplx = false) or complex *)
-| VArr (dims : list nat) (data : list GQ).          (* MathArray / ndarray, row-major *)
+| VArr (cplx : bool) (dims : list nat) (data : list GQ).   (* MathArray / ndarray (complex dtype?), row-major *)
 
 Definition shape_of_val (v : val) : argshape :=
-  match v with VNum _ _ => ANumber | VArr d _ => AArray d end.
+  match v with VNum _ _ => ANumber | VArr _ d _ => AArray d end.
+
+(* obj.item() of a number-like array; numbers are returned as they are *)
+Definition item_val (v : val) : val :=
+  match v with
+  | VArr c d data => if Nat.eqb (size d) 1 then VNum c (hd (0, 0) data) else v
+  | VNum _ _ => v
+  end.
 
 (* one recorded call of a numpy primitive made inside mathfuncs.py: name, arguments, result *)
 Record ocall := mkCall { oc_name : string; oc_args : list GQ; oc_res : GQ }.
@@ -191,26 +198,26 @@ Definition exact_target (t : target) (args : list val) : option mres :=
   | XReal, [VNum _ z] => Some (MVal (VNum false (gofQ (fst z))))
   | XImag, [VNum _ z] => Some (MVal (VNum false (gofQ (snd z))))
   | XConj, [VNum c z] => Some (MVal (VNum c (gconj z)))
-  | XReal, [VArr d data] => Some (MVal (VArr d (map (fun z => gofQ (fst z)) data)))
-  | XImag, [VArr d data] => Some (MVal (VArr d (map (fun z => gofQ (snd z)) data)))
-  | XConj, [VArr d data] => Some (MVal (VArr d (map gconj data)))
+  | XReal, [VArr _ d data] => Some (MVal (VArr false d (map (fun z => gofQ (fst z)) data)))
+  | XImag, [VArr _ d data] => Some (MVal (VArr false d (map (fun z => gofQ (snd z)) data)))
+  | XConj, [VArr c d data] => Some (MVal (VArr c d (map gconj data)))
   | XKron, [VNum _ x; VNum _ y] => Some (MVal (VNum false (kronecker (ExactPrims 0 []) x y)))
   | XAtan2, [VNum false x; VNum false y] =>
       match arctan2 (ExactPrims 0 []) x y with Raise e => Some (MRaise e) | Val _ => None end
-  | XCross, [VArr [3%nat] a; VArr [3%nat] b] => Some (MVal (VArr [3%nat] (cross3 GQops a b)))
+  | XCross, [VArr c [3%nat] a; VArr c' [3%nat] b] => Some (MVal (VArr (c || c') [3%nat] (cross3 GQops a b)))
   | XTrans, [VNum c z] => Some (MVal (VNum c z))
-  | XTrans, [VArr [n] data] => Some (MVal (VArr [n] data))
-  | XTrans, [VArr [r; c] data] => Some (MVal (VArr [c; r] (List.concat (transpose GQops c (rows_of r c data)))))
+  | XTrans, [VArr c [n] data] => Some (MVal (VArr c [n] data))
+  | XTrans, [VArr t [r; c] data] => Some (MVal (VArr t [c; r] (List.concat (transpose GQops c (rows_of r c data)))))
   | XCTrans, [VNum c z] => Some (MVal (VNum c (gconj z)))
-  | XCTrans, [VArr [n] data] => Some (MVal (VArr [n] (map gconj data)))
-  | XCTrans, [VArr [r; c] data] =>
-      Some (MVal (VArr [c; r] (map gconj (List.concat (transpose GQops c (rows_of r c data))))))
-  | XTrace, [VArr [r; c] data] => Some (MVal (VNum true (trace GQops r (rows_of r c data))))
-  | XDet, [VArr [r; c] data] => Some (MVal (VNum true (det GQops r (rows_of r c data))))
+  | XCTrans, [VArr t [n] data] => Some (MVal (VArr t [n] (map gconj data)))
+  | XCTrans, [VArr t [r; c] data] =>
+      Some (MVal (VArr t [c; r] (map gconj (List.concat (transpose GQops c (rows_of r c data))))))
+  | XTrace, [VArr _ [r; c] data] => Some (MVal (VNum true (trace GQops r (rows_of r c data))))
+  | XDet, [VArr _ [r; c] data] => Some (MVal (VNum true (det GQops r (rows_of r c data))))
   | XNorm, [VNum _ z] => Some (MSquared (gabs2 z))
-  | XNorm, [VArr _ data] => Some (MSquared (norm2 data))
+  | XNorm, [VArr _ _ data] => Some (MSquared (norm2 data))
   | XArrayAbs, [VNum _ z] => Some (MSquared (gabs2 z))
-  | XArrayAbs, [VArr d data] =>
+  | XArrayAbs, [VArr _ d data] =>
       if Nat.ltb 1 (List.length d) then Some (MRaise XFunctionEvalError) else Some (MSquared (norm2 data))
   | _, _ => None
   end.
